@@ -154,6 +154,10 @@ func init() {
 				c.ns -= 1000000000
 				c.sec++
 			}
+			for c.ns < 0 { // a negative step: the clock is being set back (NTP step, VM resume)
+				c.ns += 1000000000
+				c.sec--
+			}
 		} else {
 			sec, ns = e.envFresh(64, "clock"), e.envFresh(64, "clock")
 			e.assume(And(Sle(BV(64, 0), sec), Slt(sec, BV(64, 1<<31))))
